@@ -22,6 +22,7 @@ S_KEYED = [["send", "t", "k", ["a0"]], ["send", "u", None, [None]], ["send", "t"
 S_CANCEL = [["send", "t", None, ["a0"]], ["send", "t", None, ["b0"]], ["cancel", 0]]
 S_STOP = [["send", "t", None, ["a0"]], ["send", "u", None, ["b0"]], ["stop"]]
 S_BIG = [["send", "u", None, ["x" * 70000]]]
+S_TOMB = [["send", "t", None, ["a0"]], ["send", "u", None, [None]], ["send", "t", "k", [None, None]]]
 S_UNROUTABLE = [["send", "nosuchtopic", None, ["a0"]], ["send", "t", None, ["b0"]]]
 
 
@@ -63,7 +64,7 @@ def core_configs(tier):
         prod = {"acks": acks, "max_req_attempts": attempts, "partitioner": part}
         if batched:
             prod.update(batch_send=True, batch_every_n=2, batch_every_b=0, batch_every_t=0)
-        scripts = [S_KEYED] if part == "hashed" else [S_TWO, S_CANCEL, S_STOP]
+        scripts = [S_KEYED, S_TOMB] if part == "hashed" else [S_TWO, S_CANCEL, S_STOP]
         for script in scripts:
             out.append({"cluster": CLUSTER, "discovery": False, "producer": prod, "script": script,
                         "menu": MENU_LIGHT, "timeout_ms": 2000})
